@@ -192,6 +192,17 @@ CLAIMED = {
             'the fake transport models courier\'s observable contract; client and server share one process, so a mutation that '
             'copies the remote object to the client cannot be observed (stated in DESIGN.md); real OS threads with a 60 s watchdog.',
             '§2.3, §3 C14'),
+    'C16': ('exploration',
+            'generated pipelines/worker counts/shard counts/batch sizes run on real servers, pools and orchestrators over an in-process transport; differential against the in-process run',
+            'sharded_pipelines_as_iterator is run on 1..3 real PrefetchedCourierServers through a real WorkerPool with 1..6 shards '
+            '(more shards than workers or batches included), iterate_batch_size 1..3, prefetch 1..3, with/without batch output and '
+            'threaded shards; run_pipeline_interleaved is run with in-process stages and with a worker pool on the last stage fed '
+            'by a master server through a RemoteIteratorQueue (buffer sizes, aggregate_only). Outputs (multiset), the aggregate and '
+            'the number of final AggregateResults (exactly one) are compared with the same pipeline in one process; '
+            'merge_states(states[:j], strict_states_cnt=n) must raise ValueError for every j < n on both runner kinds.',
+            'in-process fake transport (models courier\'s observable contract, not gRPC); real OS threads/asyncio with a 90 s '
+            'watchdog and reruns before reporting; exact aggregates.',
+            '§2.3, §2.4, §3 C16'),
 }
 
 PENDING_REASON = 'check not built yet in this session (work in progress; see DESIGN.md §9 build order) - not claimed until its check exists'
